@@ -47,15 +47,17 @@ def replay_chunk(args):
         sched.run_threads({1: w}, [])           # warm-up
     for s in schedules:
         res, ctl = sched.run_threads(ws, s, fine=fine)
-        if ctl.stuck:
+        for patience in (30.0, 120.0):
+            if not ctl.stuck:
+                break
             # a thread did not reach its next yield point in time (a loaded machine, not the library: there is no
             # lock in it to wait on) - run the schedule again with a generous time-out before judging
-            sched.Controller.timeout = 30.0
+            sched.Controller.timeout = patience
             res, ctl = sched.run_threads(ws, s, fine=fine)
             sched.Controller.timeout = 5.0
         for i in range(len(names)):
             if ctl.stuck:
-                bad.append({"machinery": "scheduler timed out twice", "workloads": names, "schedule": s, "thread": 0})
+                bad.append({"machinery": "scheduler timed out three times", "workloads": names, "schedule": s, "thread": 0})
                 break
             if res.get(i + 1) != solos[i]["obs"]:
                 bad.append({"workloads": names, "schedule": s, "thread": i + 1, "solo": solos[i]["obs"],
@@ -120,7 +122,7 @@ def main(tier):
             n = sum(o[1] for o in outs)
             total += n
             if any("machinery" in b for o in outs for b in o[0]):
-                raise MachineryFailure("the forced scheduler timed out twice on a schedule (machine too loaded?)")
+                raise MachineryFailure("the forced scheduler timed out three times (5 s, 30 s, 120 s) on a schedule (machine too loaded?)")
             for o in outs:
                 for b in o[0][:20]:
                     chk.disagree(f"C06:{'+'.join(names)}:thread{b['thread']}:schedule={''.join(map(str, b['schedule']))[:120]}", b)
